@@ -24,6 +24,15 @@ ROWS_B = [
 ]
 
 
+COLS_C = [["k", "int"], ["q", "float"], ["r2", "int"]]
+ROWS_C = [[1, 1.0, 0], [1, -2.0, 1], [2, None, 2], [4, 0.5, 3], [5, 3.0, 4], [0, -1.0, 5]]
+
+
+def table_c(layout=None):
+    return {"name": "t2", "columns": copy.deepcopy(COLS_C), "rows": copy.deepcopy(ROWS_C), "index": {"kind": "range", "name": None},
+            "layout": layout or {"kind": "from_pandas", "npartitions": 2, "sort": True}}
+
+
 def table(name, rows, index=None, layout=None):
     return {"name": name, "columns": copy.deepcopy(COLS), "rows": copy.deepcopy(rows), "index": index or {"kind": "range", "name": None},
             "layout": layout or {"kind": "from_pandas", "npartitions": 3, "sort": True}}
@@ -105,6 +114,25 @@ def _templates():
         add(f"merge-{how}-filter-left", [S("v1", "merge", ["A", "B"], on=["k"], how=how, suffixes=None, broadcast=None, shuffle_method=None), S("v2", "filter_pred", ["v1"], pred=P("gt", "i_x", 2))])
         add(f"merge-{how}-filter-right", [S("v1", "merge", ["A", "B"], on=["k"], how=how, suffixes=None, broadcast=None, shuffle_method=None), S("v2", "filter_pred", ["v1"], pred=P("gt", "i_y", 11))])
         add(f"merge-{how}-filter-key", [S("v1", "merge", ["A", "B"], on=["k"], how=how, suffixes=None, broadcast=None, shuffle_method=None), S("v2", "filter_pred", ["v1"], pred=P("ge", "k", 1))])
+    for how in ("inner", "left", "right", "outer"):
+        # conjunctions whose conjuncts can / cannot be moved into one input, in both orders
+        add(f"merge-{how}-filter-and-right-then-left", [S("v1", "merge", ["A", "B"], on=["k"], how=how, suffixes=None, broadcast=None, shuffle_method=None),
+                                                       S("v2", "filter_pred", ["v1"], pred={"and": [P("lt", "i_y", 13), P("gt", "i_x", 1)]})])
+        add(f"merge-{how}-filter-and-left-then-right", [S("v1", "merge", ["A", "B"], on=["k"], how=how, suffixes=None, broadcast=None, shuffle_method=None),
+                                                       S("v2", "filter_pred", ["v1"], pred={"and": [P("gt", "i_x", 1), P("lt", "i_y", 13)]})])
+        add(f"merge-{how}-filter-and-cross-side", [S("v1", "merge", ["A", "B"], on=["k"], how=how, suffixes=None, broadcast=None, shuffle_method=None),
+                                                  S("v2", "filter_pred", ["v1"], pred={"and": [{"col": "g_x", "cmp": "gt", "col2": "g_y"}, P("gt", "i_x", 1)]})])
+        add(f"merge-{how}-filter-or-sides", [S("v1", "merge", ["A", "B"], on=["k"], how=how, suffixes=None, broadcast=None, shuffle_method=None),
+                                            S("v2", "filter_pred", ["v1"], pred={"or": [P("lt", "i_y", 12), P("gt", "i_x", 4)]})])
+    for how in ("inner", "left", "right", "outer"):
+        # C has columns of its own (q, r2): un-suffixed right-only columns, the filter can really move
+        mc = lambda: S("v1", "merge", ["A", "C"], on=["k"], how=how, suffixes=None, broadcast=None, shuffle_method=None)
+        add(f"mergeC-{how}-filter-right-then-left", [mc(), S("v2", "filter_pred", ["v1"], pred={"and": [P("lt", "q", 2), P("gt", "i", 1)]})])
+        add(f"mergeC-{how}-filter-left-then-right", [mc(), S("v2", "filter_pred", ["v1"], pred={"and": [P("gt", "i", 1), P("lt", "q", 2)]})])
+        add(f"mergeC-{how}-filter-cross-side", [mc(), S("v2", "filter_pred", ["v1"], pred={"and": [{"col": "g", "cmp": "gt", "col2": "q"}, P("gt", "i", 1)]})])
+        add(f"mergeC-{how}-filter-or", [mc(), S("v2", "filter_pred", ["v1"], pred={"or": [P("lt", "q", 0), P("gt", "i", 4)]}), S("v3", "cols", ["v2"], cols=["rid", "r2"])])
+        add(f"mergeC-{how}-filter-right-proj", [mc(), S("v2", "filter_pred", ["v1"], pred=P("gt", "q", 0)), S("v3", "cols", ["v2"], cols=["f", "q"])])
+        add(f"mergeC-{how}-filter-key-isna", [mc(), S("v2", "filter_pred", ["v1"], pred={"or": [{"col": "q", "f": "isna"}, P("ge", "k", 2)]})])
     add("merge-both-suffixed", [S("v1", "merge", ["A", "B"], on=["k"], how="inner", suffixes=None, broadcast=None, shuffle_method=None), S("v2", "cols", ["v1"], cols=["f_x", "f_y"])])
     add("merge-suffix-empty", [S("v1", "merge", ["A", "B"], on=["k"], how="left", suffixes=["", "_r"], broadcast=None, shuffle_method=None), S("v2", "filter_pred", ["v1"], pred=P("gt", "f", 0)), S("v3", "cols", ["v2"], cols=["f", "f_r", "k"])])
     add("merge-broadcast", [S("v1", "merge", ["A", "B"], on=["k"], how="inner", suffixes=None, broadcast=True, shuffle_method=None), S("v2", "cols", ["v1"], cols=["k", "rid_x", "rid_y"])])
@@ -183,7 +211,7 @@ def _expand(t, layout_a, index_a, layout_b, shuffle):
                 pre.append(S(pid, "cols", ["t0" if base == "A" else "t1" if base == "B" else base], cols=cols.split(",")))
                 ins.append(pid)
             else:
-                ins.append({"A": "t0", "B": "t1"}.get(i, i))
+                ins.append({"A": "t0", "B": "t1", "C": "t2"}.get(i, i))
         s["in"] = ins
         steps.append(s)
     steps = _order(pre, steps)
@@ -191,6 +219,8 @@ def _expand(t, layout_a, index_a, layout_b, shuffle):
     if any("t1" in s["in"] for s in steps):
         # same index name on both inputs (pandas only keeps a name both inputs agree on)
         tables.append(table("t1", ROWS_B, index={"kind": "range", "name": index_a.get("name")}, layout=layout_b))
+    if any("t2" in s["in"] for s in steps):
+        tables.append(table_c(layout=[{"kind": "from_pandas", "npartitions": 2, "sort": True}, {"kind": "from_map", "cuts": [1, 0, 5]}][len(layout_a.get("cuts", [])) % 2]))
     return {"tables": tables, "steps": steps, "out": [t["out"]], "config": {"shuffle": shuffle}, "template": t["name"]}
 
 
